@@ -113,7 +113,7 @@ func (d *deadConn) Write(p []byte) (int, error) {
 	defer d.mu.Unlock()
 	select {
 	case <-d.closed:
-		return 0, io.ErrClosedPipe
+		return 0, errClosedConn
 	default:
 	}
 	if string(p) == "\n" {
@@ -215,13 +215,13 @@ func (d *closingConn) Read(p []byte) (int, error) {
 	if d.sent {
 		d.mu.Unlock()
 		<-d.closed
-		return 0, io.ErrClosedPipe
+		return 0, errClosedConn
 	}
 	d.mu.Unlock()
 	select {
 	case <-time.After(time.Until(d.start.Add(d.after))):
 	case <-d.closed:
-		return 0, io.ErrClosedPipe
+		return 0, errClosedConn
 	}
 	d.mu.Lock()
 	d.sent = true
